@@ -10,16 +10,22 @@ pid = sys.argv[1]; tier = sys.argv[2] if len(sys.argv) > 2 else "quick"
 props = {json.loads(l)["id"]: json.loads(l) for l in open(os.path.join(V, "properties.jsonl"))}
 anchors = props[pid]["anchors"]["files"]
 env = dict(os.environ, GOFLAGS="-mod=mod", GOPROXY="off", GOSUMDB="off", GOTOOLCHAIN="local", CGO_ENABLED="0")
+REPO = os.path.realpath(os.environ.get("VERIF_REPO", "/repo"))  # a scratch worktree of /repo may be given, as for ./check
 W = tempfile.mkdtemp(prefix="cov.%s." % pid, dir="/var/tmp")
 try:
     hx = os.path.join(W, "hx")
     cmd = "./cmd/hx-" + pid.lower()
-    subprocess.run(["go", "build", "-tags", "verif", "-cover", "-coverpkg=%s,github.com/safing/portbase/..." % cmd, "-o", hx, cmd],
+    modargs = []
+    if REPO != "/repo":
+        open(os.path.join(W, "go.mod"), "w").write(open(os.path.join(V, "harness", "go.mod")).read().replace("=> /repo", "=> " + REPO))
+        shutil.copy(os.path.join(REPO, "go.sum"), os.path.join(W, "go.sum"))
+        modargs = ["-modfile", os.path.join(W, "go.mod")]
+    subprocess.run(["go", "build"] + modargs + ["-tags", "verif", "-cover", "-coverpkg=%s,github.com/safing/portbase/..." % cmd, "-o", hx, cmd],
                    cwd=os.path.join(V, "harness"), env=env, check=True)
     cd = os.path.join(W, "covdata"); out = os.path.join(W, "out"); os.makedirs(cd); os.makedirs(out)
     pbdrv = os.path.join(V, "lean", ".lake", "build", "bin", "pbdrv-" + pid.lower())
     p = subprocess.run([hx, "-tier", tier, "-seed", "1", "-out", out, "-pbdrv", pbdrv], cwd=out,
-                       env=dict(env, GOCOVERDIR=cd, VERIF_SCRATCH_DIR=out, VERIF_REPO="/repo", VERIF_DIR=V),
+                       env=dict(env, GOCOVERDIR=cd, VERIF_SCRATCH_DIR=out, VERIF_REPO=REPO, VERIF_DIR=V),
                        stdout=subprocess.PIPE, stderr=subprocess.STDOUT, text=True, timeout=3600)
     print(p.stdout.splitlines()[-1] if p.stdout else "")
     prof = os.path.join(W, "cover.txt")
@@ -39,7 +45,7 @@ try:
         st = sum(b[2] for b in bs); cv = sum(b[2] for b in bs if b[3] > 0)
         tot_s += st; tot_c += cv
         lines.append("%s: %d/%d statements covered (%.0f%%)" % (f, cv, st, 100.0 * cv / max(st, 1)))
-        src = open(os.path.join("/repo", f)).read().splitlines()
+        src = open(os.path.join(REPO, f)).read().splitlines()
         # map uncovered blocks to enclosing function (last `func` line at or before the block)
         funcs = [(i + 1, re.sub(r"\s*\{\s*$", "", s)) for i, s in enumerate(src) if s.startswith("func ")]
         unc = collections.defaultdict(list)
